@@ -307,3 +307,9 @@ V("C20", "alt_enumeration_as_string", "violation", ("andes/models/static/pq.py",
 V("C16", "klu_pattern_guard_removed", "violation", (SS, "        if self.factorize is False and not self._same_pattern(pattern):\n            self.factorize = True\n", ""), rule="C16.stale-symbolic")
 V("C16", "klu_pattern_guard_nnz_only", "violation", (SS, "        return (pat is not None) and np.array_equal(pat[0], pattern[0]) and np.array_equal(pat[1], pattern[1])", "        return (pat is not None) and len(pat[1]) > 0"), rule="C16.stale-symbolic")
 V("C16", "eig_reduce_ignores_linsolve_result", "violation", (EIG, "        sol = self.solver.linsolve(gy, self.gyx)\n        self.gyx = matrix(np.reshape(sol, self.gyx.size))\n", "        self.solver.linsolve(gy, self.gyx)\n"), rule="C16.inplace-contract")
+V("C17", "mp_proc_worker_status_dropped", "violation", ("andes/main.py", "    if system is None or system.exit_code != 0:\n        sys.exit(1)\n", "    return system\n"), rule="C17.aggregate")
+V("C17", "mp_proc_only_last_batch_counted", "violation", ("andes/main.py", "                if job.exitcode != 0:\n                    n_failed += 1\n", "                n_failed = 1 if job.exitcode != 0 else 0\n"), rule="C17.aggregate")
+V("C17", "mp_proc_status_not_aggregated", "violation", ("andes/main.py", "        elif system is not True:\n            ex_code += 1  # at least one worker process reported an error\n", ""), rule="C17.aggregate")
+V("C17", "main_run_pool_only_first_system", "violation", ("andes/main.py", "            for s in system:\n                ex_code += s.exit_code\n", "            ex_code += system[0].exit_code\n"), rule="C17.aggregate")
+V("C17", "benign_mp_proc_sum_exitcodes", "silent", ("andes/main.py", "                if job.exitcode != 0:\n                    n_failed += 1\n", "                n_failed += 1 if job.exitcode else 0\n"))
+V("C17", "benign_main_run_ifexp_aggregation", "silent", ("andes/main.py", "        if system is not None:\n            ex_code += system.exit_code\n        else:\n            ex_code += 1\n", "        ex_code += system.exit_code if system is not None else 1\n"))
